@@ -41,6 +41,19 @@ def _make(ctx, n, nparts, ftype, strand):
     feat = build_feature(st, parts, ftype, quals, fid="fid1")
     track = ctx.mk.track("q", n)
     ann = {"topology": "circular", "organism": "E. coli", "k": [1, 2]}
+    if ctx.P.get("history"):
+        # the record had another life before: other letters, no feature; it was rotated (by amounts the caller passes in
+        # `history`), then edited in place into the state the clauses are about.  A record is what it holds now.
+        r0 = ctx.mk.seq("r0", n, "ACGT")
+        rec = st.record.CircularRecord(st.Seq(r0), id="rid", name="rname", description="rdesc",
+                                       dbxrefs=["db:1"], features=[], annotations=ann,
+                                       letter_annotations={"phred": track})
+        for k0 in _same_amount_before(ctx, n):
+            rec >> k0
+            rec << (-k0)
+        rec.seq = st.Seq(r)
+        rec.features.append(feat)
+        return r, parts, quals, track, ann, rec
     rec = st.record.CircularRecord(st.Seq(r), id="rid", name="rname", description="rdesc",
                                    dbxrefs=["db:1"], features=[feat], annotations=ann,
                                    letter_annotations={"phred": track})
@@ -72,12 +85,19 @@ def _same_denotation(ctx, old_parts, new_parts, shift, n, label):
                     "%s:part%d-position" % (label, j))
 
 
+def _same_amount_before(ctx, n):
+    """earlier rotations of the same object by the amount asked now and by a congruent one"""
+    k = _rotation_amount(ctx, "k", n)
+    ctx.shared_k = k
+    return [k, k + n]
+
+
 def ob_rotate(ctx):
     P = ctx.P
     n = P["n"]
     st = ctx.stack
     r, parts, quals, track, ann, rec = _make(ctx, n, P["parts"], P["ftype"], P["strand"])
-    k = _rotation_amount(ctx, "k", n)
+    k = ctx.shared_k if P.get("history") else _rotation_amount(ctx, "k", n)
     out = rec >> k
     ctx.observe("out", out)
     ctx.require(isinstance(out, st.record.CircularRecord), "type")
@@ -229,6 +249,10 @@ def obligations(tier, seed):
                 obs.append(Ob("%s n=%d parts=%d" % (which, n, parts), ob_inverse,
                               dict(n=n, parts=parts, ftype=ft, strand="sym", which=which), samples=4,
                               cost=4 * n * parts ** 3))
+    for n in tier_pick(tier, (3, 8), (2, 5, 9, 14)):
+        obs.append(Ob("rotate a record that was rotated, then edited in place n=%d" % n, ob_rotate,
+                      dict(n=n, parts=1, ftype="misc_feature", strand="sym", history=True), samples=4,
+                      cost=3 * n, group="history"))
     for n in (1, 3, 6):
         obs.append(Ob("locationless n=%d" % n, ob_nofeature_location, dict(n=n), samples=3, cost=n))
     return obs
